@@ -20,7 +20,10 @@ fn main() {
     let tier = arg(&args, "--tier").unwrap_or_else(|| "quick".into());
     let out = arg(&args, "--out").unwrap_or_else(|| format!("/verif/evidence/{prop}.json"));
     let replay_dir = arg(&args, "--replay-dir").unwrap_or_else(|| "/verif/replays".into());
-    let threads: usize = arg(&args, "--threads").and_then(|s| s.parse().ok()).unwrap_or_else(|| std::thread::available_parallelism().map(|n| n.get()).unwrap_or(4));
+    if let Some(t) = arg(&args, "--trace-file") {
+        lsverif::enable_trace(&t);
+    }
+    let threads: usize = if lsverif::tracing() { Some(1) } else { None }.or(arg(&args, "--threads").and_then(|s| s.parse().ok())).unwrap_or_else(|| std::thread::available_parallelism().map(|n| n.get()).unwrap_or(4));
     let seed: u64 = std::env::var("VERIF_SEED").ok().and_then(|s| s.parse().ok()).unwrap_or(0);
     let wall: f64 = arg(&args, "--wall").and_then(|s| s.parse().ok()).unwrap_or(if tier == "quick" { 120.0 } else { 3000.0 });
     let t0 = Instant::now();
